@@ -16,24 +16,14 @@ Definition is_ok (s : form_status) : bool := match s with Ok => true | _ => fals
 Definition pair_eqb (a b : string * string) : bool := (String.eqb (fst a) (fst b) && String.eqb (snd a) (snd b))%bool.
 Definition mem (x : string * string) (l : list (string * string)) : bool := existsb (pair_eqb x) l.
 
-(* the call forms that fail today, grouped by root cause *)
-Definition failing_getunit_deg :=      (* getunit: np.isscalar(symbol) is False, the 'deg' branch iterates the symbol *)
-  [("base.rotx","theta,deg"); ("base.roty","theta,deg"); ("base.rotz","theta,deg");
-   ("base.trotx","theta,deg"); ("base.troty","theta,deg"); ("base.trotz","theta,deg");
-   ("SE3.Rx","theta,deg"); ("SE3.Ry","theta,deg"); ("SE3.Rz","theta,deg")].
-Definition failing_eul_scalars :=      (* eul2r: np.isscalar(phi) is False for a symbol: the 3-scalar form is taken for a vector *)
-  [("base.eul2r","phi,theta,psi"); ("base.eul2r","phi,0.2,0.3"); ("base.eul2tr","phi,theta,psi"); ("base.eul2tr","phi,0.2,0.3")].
-Definition failing_float_alloc :=      (* symbolic entries stored into a float64 array (trot*(num, t=sym); rt2tr in SE2.inv) *)
-  [("base.trotx","0.3,t=list"); ("base.troty","0.3,t=list"); ("base.trotz","0.3,t=list");
-   ("op.SE2.inv","inv"); ("op.SE2/SE2","X/Y")].
-Definition failing_check_true :=       (* result built with check=True: isR -> np.linalg.norm on an object array *)
-  [("SE3.Delta","array"); ("op.SO2.inv","inv"); ("op.SO2/SO2","A/B")].
+(* the call forms that still fail.  Repaired since the first rounds (and therefore REQUIRED to be Ok by
+   C16_callforms_partial): rot*/trot*/SE3.R*(sym,'deg') 61ca10f, eul2r/eul2tr scalars eb98c88, trot*(num, t=sym) e615f54,
+   SE2.inv, SE2/SE2, SO2.inv, SO2/SO2 d486d19 + 1c511ed, SE3.jacob 5493c9a, Twist3.R*(scalar) e531d4d *)
+Definition failing_not_symbolic :=     (* SE3.Delta normalises with trnorm -> unitvec compares a symbolic norm with a threshold *)
+  [("SE3.Delta","array")].
 Definition failing_linalg :=           (* np.linalg.matrix_power / inv on an object array *)
   [("op.SE3**n","X**-1")].
-Definition failing_both_paths :=       (* broken on the numeric path as well *)
-  [("Twist3.Rx","theta"); ("Twist3.Ry","theta"); ("Twist3.Rz","theta")].   (* SE3.jacob was here until fix 5493c9a *)
-Definition expected_failing :=
-  (failing_getunit_deg ++ failing_eul_scalars ++ failing_float_alloc ++ failing_check_true ++ failing_linalg ++ failing_both_paths)%list.
+Definition expected_failing := (failing_not_symbolic ++ failing_linalg)%list.
 
 Theorem C16_callforms_refuted : exists e f, In (e, f, SymRaises) callforms.
 Proof.
@@ -56,8 +46,14 @@ Example C16_callforms_nonvacuous :
   Nat.leb 100 (length (filter (fun r => match r with (e, f, _) => negb (mem (e, f) expected_failing) end) callforms)) = true /\
   existsb (fun r => match r with (e, f, Ok) => pair_eqb (e, f) ("base.rotx", "theta") | _ => false end) callforms = true /\
   existsb (fun r => match r with (e, f, Ok) => pair_eqb (e, f) ("op.SE3*SE3", "X*Y") | _ => false end) callforms = true /\
-  (* repaired entry: must stay Ok (it is no longer in the list, so C16_callforms_partial covers it) *)
-  existsb (fun r => match r with (e, f, Ok) => pair_eqb (e, f) ("SE3.jacob", "jacob") | _ => false end) callforms = true.
+  (* repaired entries: must stay Ok (they are no longer in the list, so C16_callforms_partial covers them) *)
+  forallb (fun p => existsb (fun r => match r with (e, f, Ok) => pair_eqb (e, f) p | _ => false end) callforms)
+    [("SE3.jacob", "X.jacob()"); ("base.rotx","theta,'deg'"); ("base.trotz","theta,'deg'"); ("SE3.Ry","theta,'deg'");
+     ("base.eul2r","phi,theta,psi (3 scalars)"); ("base.eul2tr","phi,0.2,0.3 (scalars)"); ("base.trotx","0.3,t=[x,y,z]");
+     ("Twist3.Rx","theta (scalar)"); ("op.SE2.inv","X.inv()"); ("op.SE2/SE2","X / Y"); ("op.SO2.inv","A.inv()");
+     ("op.SO2/SO2","A / B")] = true.
+(* (the form names of the repaired entries were changed when they were repaired, so that no stale known-finding key of the
+   earlier rounds can match a regression) *)
 Proof. repeat split; vm_compute; reflexivity. Qed.
 
 (* the numeric path never rejects a form that the symbolic path accepts *)
@@ -67,3 +63,12 @@ Proof.
   intros e f Hin. rewrite forallb_forall in H. specialize (H _ Hin). discriminate H.
 Qed.
 Print Assumptions C16_no_numeric_only_failure.
+
+(* FULL statement for the both-paths class (Twist3.R*(scalar), SE3.jacob are repaired): no call form is rejected by
+   both paths any more *)
+Theorem C16_no_both_paths_failure : forall e f, ~ In (e, f, BothRaise) callforms.
+Proof.
+  assert (H : forallb (fun r => match r with (_, _, BothRaise) => false | _ => true end) callforms = true) by (vm_compute; reflexivity).
+  intros e f Hin. rewrite forallb_forall in H. specialize (H _ Hin). discriminate H.
+Qed.
+Print Assumptions C16_no_both_paths_failure.
